@@ -19,24 +19,30 @@ import (
 // C13: cancellation is honoured promptly in every state.
 
 type c13Params struct {
-	state  string // zk-silent | meta-silent | probe-silent | backoff | server-silent | established-then-silent | lookup-backoff
-	entry  string // get | batch-shared | batch-own | scan
-	how    string // cancel | deadline
-	after  time.Duration
+	state string // zk-silent | meta-silent | probe-silent | backoff | server-silent | established-then-silent | lookup-backoff
+	entry string // get | batch-shared | batch-own | scan
+	how   string // cancel | deadline
+	after time.Duration
+	step  int // how == "cancel-at-step": the scheduling step at which the canceller interrupts (-1: never, probe run)
 }
 
 func (p c13Params) String() string {
+	if p.how == "cancel-at-step" {
+		return fmt.Sprintf("state=%s|entry=%s|cancel at step %d", p.state, p.entry, p.step)
+	}
 	return fmt.Sprintf("state=%s|entry=%s|%s@%v", p.state, p.entry, p.how, p.after)
 }
 
 type c13Obs struct {
-	returned   bool
-	err        error
-	batchRes   []hrpc.RPCResult
-	cancelAt   time.Duration
-	returnedAt time.Duration
-	w          *world
-	otherErr   error
+	returned     bool
+	err          error
+	batchRes     []hrpc.RPCResult
+	cancelAt     time.Duration
+	returnedAt   time.Duration
+	w            *world
+	otherErr     error
+	returnedStep int
+	startStep    int // scheduling step at which the API call under test began
 }
 
 func c13Body(p c13Params, out *c13Obs) func() {
@@ -91,9 +97,13 @@ func c13Body(p c13Params, out *c13Obs) func() {
 			ctx, cancel = context.WithCancel(context.Background())
 		}
 		defer cancel()
-		if p.how == "cancel" {
+		out.startStep = vrt.Steps()
+		if p.how == "cancel" || p.how == "cancel-at-step" {
 			vrt.GoNamed("h:canceller", func() {
-				if p.after > 0 {
+				if p.how == "cancel-at-step" {
+					// an interrupt: the canceller resumes exactly at that step of the execution
+					vrt.AwaitFirst("h:cancel-at-step", func() bool { return p.step >= 0 && vrt.Steps() >= p.step })
+				} else if p.after > 0 {
 					vrt.Sleep(p.after)
 				}
 				out.cancelAt = w.now()
@@ -136,6 +146,7 @@ func c13Body(p c13Params, out *c13Obs) func() {
 		}
 		out.returned = true
 		out.returnedAt = w.now()
+		out.returnedStep = vrt.Steps()
 		w.frozen, w.zkSilent = false, false
 		cl.Silent = map[string]bool{}
 		cl.KeyScript = map[string][]string{}
@@ -302,6 +313,46 @@ func c13Units(thorough bool) []*explore.Unit {
 			}
 		}
 	}
+	// the context ends at every scheduling step of the call: in each wait state and on a
+	// healthy cluster ("none"), the canceller interrupts before each step of a thread running
+	// client code, up to a number of steps that covers the first retry rounds of the state
+	maxK := 120
+	if thorough {
+		maxK = 400
+	}
+	for _, st := range append([]string{"none"}, states...) {
+		for _, en := range entries {
+			probe := &c13Obs{}
+			vrt.Tracing = true
+			res, _ := explore.RunOnce(&explore.Unit{Opt: vrt.Options{MaxSteps: 6000},
+				Body: c13Body(c13Params{state: st, entry: en, how: "cancel-at-step", step: -1}, probe)}, nil)
+			vrt.Tracing = false
+			var ks []int
+			for i, line := range res.Trace {
+				k := res.TraceSteps[i]
+				if k < probe.startStep || harnessThread(strings.SplitN(line, " ", 2)[0]) {
+					continue
+				}
+				if probe.returned && k > probe.returnedStep || len(ks) >= maxK {
+					break
+				}
+				ks = append(ks, k)
+			}
+			for _, k := range ks {
+				p := c13Params{state: st, entry: en, how: "cancel-at-step", step: k}
+				out := &c13Obs{}
+				b := 1
+				if thorough {
+					b = 2
+				}
+				units = append(units, &explore.Unit{Name: p.String(), Bound: b, Opt: vrt.Options{MaxSteps: 60000},
+					Body: c13Body(p, out), Check: c13Check(p, out),
+					Sig: func() string {
+						return fmt.Sprintf("%s returned=%v delay=%v", errClass(out.err), out.returned, out.returnedAt-out.cancelAt)
+					}})
+			}
+		}
+	}
 	units = append(units, c13QueueUnit("cancel"), c13QueueUnit("deadline"))
 	return units
 }
@@ -309,8 +360,8 @@ func c13Units(thorough bool) []*explore.Unit {
 func init() {
 	register(&Prop{
 		ID: "C13", Level: "model_checking",
-		Technique: "stateless model checking with a freeze-the-world oracle: the client is brought into every wait state by script, the context ends at enumerated virtual instants (or under all schedules up to a deviation bound), and from that instant the environment answers nothing; the API call must return on client-internal steps alone",
-		Rule: "wait states {ZooKeeper silent, meta silent, probe unanswered, retry back-off, server silent after the request, region being re-established with meta silent, lookup back-off} x entry points {get, put, batch with shared context, batch with one call's own context, scanner} x {cancel, deadline} x 4 instants (0, 20 ms, 3 s, 100 s of virtual time), schedules with <=1 (thorough 2) deviations; plus the region client's busy send queue (writer blocked in Write) on tier R. Oracle: the call returns, with a context error, no later than 1 s of virtual time after the context ended; a batch returns with only that call failed. Non-trivial = at least one non-default scheduling choice or a non-zero instant.",
+		Technique:   "stateless model checking with a freeze-the-world oracle: the client is brought into every wait state by script, the context ends at enumerated virtual instants (or under all schedules up to a deviation bound), and from that instant the environment answers nothing; the API call must return on client-internal steps alone",
+		Rule:        "wait states {ZooKeeper silent, meta silent, probe unanswered, retry back-off, server silent after the request, region being re-established with meta silent, lookup back-off} x entry points {get, put, batch with shared context, batch with one call's own context, scanner} x {cancel, deadline} x 4 instants (0, 20 ms, 3 s, 100 s of virtual time), schedules with <=1 (thorough 2) deviations; plus the region client's busy send queue (writer blocked in Write) on tier R. Oracle: the call returns, with a context error, no later than 1 s of virtual time after the context ended; a batch returns with only that call failed. Non-trivial = at least one non-default scheduling choice or a non-zero instant.",
 		Assumptions: []string{"virtual clock: 'promptly' is measured in virtual time with the environment frozen", "an unbatched call blocked inside net.Conn.Write is outside the listed wait states (only the send queue is)"},
 		Quick:       150 * time.Second, Thorough: 25 * time.Minute,
 		Units: c13Units,
